@@ -56,7 +56,7 @@ def load (ibytes data : Bytes) : LoadResult :=
     | none => .ok []
     | some last =>
       if last.type = INVALID_TYPE then
-        if data.length = last.offset then .ok (decodeRecs ibytes).dropLast else .valueError false
+        if data.length = last.offset then .ok (decodeRecs ibytes).dropLast else .valueError true
       else if last.offset + HDR > data.length then .valueError true
       else if last.offset + HDR + u32le data (last.offset + 16) = data.length then .ok (decodeRecs ibytes)
       else .valueError true
